@@ -273,8 +273,18 @@ def segLine (op : String) : String :=
     match a.toNat?, b.toNat?, k.toNat?, kv l1 with
     | some start, some stop, some kib, some l1 => Id.run do
       let g := pgInitErat (floatCfg l1) start stop kib
-      if !g.hasNextSegment then return "pending=0 n=0 sum=0 last=0 order=ok"
+      if !g.hasNextSegment then return "tiny=0:0 pending=0 n=0 sum=0 last=0 order=ok"
       let r := Nat.sqrt stop
+      -- SievingPrimes::init: `if (start * start <= stop) tinySieve()` with start = 165, stop = isqrt(main stop)
+      let tt : List Bool := if 165 * 165 ≤ r then Feed.tinySieve (Nat.sqrt r) else []
+      let tsum := Id.run do
+        let mut a := 0
+        let mut k := 0
+        for b in tt do
+          if b then a := a + k
+          k := k + 1
+        return a
+      let tiny := s!"tiny={tt.length}:{tsum} "
       let base := simpleSieve r
       let mut ps : Array Nat := #[]
       for p in [165 : r + 1] do
@@ -282,7 +292,7 @@ def segLine (op : String) : String :=
       let psA := ps
       let src : Nat → Nat := fun k => if k < psA.size then psA[k]! else umax
       let fs := Feed.feedSegment src g.segmentLow g.segmentHigh {}
-      if fs.prime == umax then return s!"pending={umax} n=0 sum=0 last={umax} order=ok"
+      if fs.prime == umax then return tiny ++ s!"pending={umax} n=0 sum=0 last={umax} order=ok"
       let mut n := 0
       let mut sum := 0
       let mut last := fs.prime
@@ -290,7 +300,7 @@ def segLine (op : String) : String :=
         n := n + 1
         sum := (sum + psA[i]!) % U64
         last := psA[i]!
-      return s!"pending={fs.prime} n={n} sum={sum} last={last} order=ok"
+      return tiny ++ s!"pending={fs.prime} n={n} sum={sum} last={last} order=ok"
     | _, _, _, _ => "bad-op"
   | _ => "bad-op"
 
